@@ -133,6 +133,16 @@ func c06Check(src string, all bool) (kind, detail string, accepted bool) {
 	if all {
 		core = c06Options(true)
 	}
+	first := compileCfg(o.Prog, core[0])
+	defer func() {
+		if kind == "" {
+			// the options relate outputs of ONE program: printing must not change the tree it prints, so
+			// the first output is reproduced after all the others have been produced
+			if again := compileCfg(o.Prog, core[0]); again.Code != first.Code {
+				kind, detail = "repeated-compile-differs", fmt.Sprintf("%s: first output %q; the same tree compiled again after the other option sets %q", core[0], first.Code, again.Code)
+			}
+		}
+	}()
 	for ci, cfg := range core {
 		p1 := compileCfg(o.Prog, cfg)
 		c06Formatted += 2
@@ -254,7 +264,7 @@ func c06Interplay(full bool) []string {
 }
 
 func c06Run(c *core.Ctx) {
-	processWarmup()
+	processWarmup(c)
 	report := func(k, d, src string, size int) {
 		if k == "" || !c.ShrinkOK(k) {
 			return
@@ -319,7 +329,7 @@ func c06Run(c *core.Ctx) {
 	if c.Thorough() {
 		level, k = 2, 2
 	}
-	gaps := []string{"\n", "", " // c\n", "\n\n", "\n\n\n// d\n\n", "\t"}
+	gaps := []string{"\n", "", " // c\n", "\n\n", "\n\n\n// d\n\n", "\t", "\n\n\n// e\n"}
 	runProg := func(prog []*gen.Node, kk int) {
 		toks := gen.UnparseProgram(prog, false)
 		if len(toks) > 36 && kk > 1 {
